@@ -1,6 +1,6 @@
 /* tree.h - TbfTree bulk export (C17) and tree-level lookups (C16), src/core/tbftree.hpp.
- * BOUNDED STAND-IN for the export loops: every tree with <= 2 particle groups, <= 2 leaves per group and
- * <= 2 particles per leaf (<= NPMAX particles in total), all values symbolic, complete unwinding.
+ * BOUNDED STAND-IN for the export loops: particle groups of shape {2,1} and {2,1}+{1} (particles per leaf), every
+ * assignment of original indices, all values symbolic, complete unwinding.
  * The statement checked is the property's: entry i of the exported array holds the values of the particle
  * whose original index is i. */
 #ifdef SPEC_PART_MODEL
@@ -10,7 +10,7 @@
 #endif
 
 #ifdef SPEC_PART_CONTRACTS
-#define NPMAX 8
+#define NPMAX 4
 #define CAT2_(a, b) a##b
 #define CAT2(a, b) CAT2_(a, b)
 #define ARR_D CAT2(std_array_double_, NBDATA)
@@ -26,24 +26,21 @@ static double g_val[NPMAX][NBDATA];   /* value v of the particle whose ORIGINAL 
 static long g_rhs[NPMAX][NBRHS];
 static _Bool g_used[NPMAX];
 
-/* build one particle group with nl <= 2 leaves of <= 2 particles; original indices are arbitrary distinct numbers below N */
-static void build_group(PartGroup *g, long N)
+/* build one particle group of a fixed shape (leaf sizes c0, c1; c1 == 0 means a single leaf); original indices are
+ * arbitrary distinct numbers below N, all values symbolic */
+static void build_group(PartGroup *g, long N, long c0, long c1)
 {
-  long nl; __CPROVER_assume(1 <= nl && nl <= 2);
+  const long nl = c1 ? 2 : 1, np = c0 + c1;
   struct TbfParticlesContainer__ContainerHeader *h = malloc(sizeof(*h));
   LeafHeader *lv = malloc(2 * sizeof(LeafHeader));
   long *pidx = malloc(4 * sizeof(long));
   long *nb = malloc(4 * sizeof(long)), *nbr = malloc(sizeof(long));
-  long np = 0;
-  for(long l = 0; l < 2; ++l) if(l < nl) {
-    long c; __CPROVER_assume(1 <= c && c <= 2);
-    lv[l].nbParticles = c; lv[l].offSet = np; lv[l].spaceIndex = nondet_long();
-    np += c;
-  }
+  lv[0].nbParticles = c0; lv[0].offSet = 0; lv[0].spaceIndex = nondet_long();
+  lv[1].nbParticles = c1; lv[1].offSet = c0; lv[1].spaceIndex = nondet_long();
   const long ld = ((8 * np * NBDATA + 63) / 64) * 64, ldr = ((8 * np * NBRHS + 63) / 64) * 64;
-  double *pd = malloc(NBDATA * (((8 * 4 * NBDATA + 63) / 64) * 64));
-  long *pr = malloc(NBRHS * (((8 * 4 * NBRHS + 63) / 64) * 64));
-  for(long k = 0; k < 4; ++k) if(k < np) {
+  double *pd = malloc(NBDATA * ld);
+  long *pr = malloc(NBRHS * ldr);
+  for(long k = 0; k < np; ++k) {
     long p = nondet_long(); __CPROVER_assume(0 <= p && p < N && !g_used[p]);
     g_used[p] = 1; pidx[k] = p;
     for(long v = 0; v < NBDATA; ++v) { double x = nondet_double(); g_val[p][v] = x; ((double *)((unsigned char *)pd + v * ld))[k] = x; }
@@ -57,16 +54,55 @@ static void build_group(PartGroup *g, long N)
 }
 static long build_small_tree(struct TbfTree *t)
 {
-  long N; __CPROVER_assume(1 <= N && N <= NPMAX);
-  long ng; __CPROVER_assume(1 <= ng && ng <= 2);
+  /* shapes: one group {2,1}, optionally a second group {1}; N = number of particles */
+  _Bool two = nondet_bool();
+  const long N = two ? 4 : 3;
   for(long p = 0; p < NPMAX; ++p) g_used[p] = 0;
-  for(long i = 0; i < 2; ++i) if(i < ng) build_group(&g_groups[i], N);
-  t->particleGroups.data = g_groups; t->particleGroups.size = ng; t->particleGroups.cap = 2;
+  build_group(&g_groups[0], N, 2, 1);
+  if(two) build_group(&g_groups[1], N, 1, 0);
+  t->particleGroups.data = g_groups; t->particleGroups.size = two ? 2 : 1; t->particleGroups.cap = 2;
   t->nbParticles = N;
   return N;
 }
 
-/*@ harness bounded_export_data plain=1 unwind=10 bounded=groups<=2,leaves<=2,particles/leaf<=2,N<=8 props=C17,C15 timeout=1200 */
+/* the per-leaf body of the export (the lambda handed to applyToAllLeaves), real extracted body:
+ * BOUNDED: <= 3 particles in the leaf, <= 4 particles in the tree, all indices / values symbolic */
+/*@ harness bounded_export_leaf_data plain=1 unwind=5 bounded=particles/leaf<=3,N<=4 props=C17,C15 timeout=600 */
+void bounded_export_leaf_data(void)
+{
+  long N, nb; __CPROVER_assume(1 <= N && N <= 4 && 0 <= nb && nb <= 3 && nb <= N);
+  struct ARR_D out[4]; struct ARR_D *outp = out;
+  struct TbfTree__getAllParticlesData__lam0 clos = { .cap_data = &outp };
+  LeafHeader lh; lh.nbParticles = nb;
+  long pidx[3]; double col[NBDATA][3]; long rcol[NBRHS][3];
+  for(int k = 0; k < 3; ++k) if(k < nb) { __CPROVER_assume(0 <= pidx[k] && pidx[k] < N); for(int j = 0; j < k; ++j) __CPROVER_assume(pidx[j] != pidx[k]); }
+  struct CAT2(std_array_double_p_, NBDATA) dp; struct CAT2(std_array_long_p_, NBRHS) rp;
+  for(int v = 0; v < NBDATA; ++v) dp.d[v] = col[v];
+  for(int v = 0; v < NBRHS; ++v) rp.d[v] = rcol[v];
+  TbfTree__getAllParticlesData__lam0__call(&clos, &lh, pidx, dp, rp);
+  for(int k = 0; k < 3; ++k) if(k < nb) for(int v = 0; v < NBDATA; ++v)
+    __CPROVER_assert(out[pidx[k]].d[v] == col[v][k] || col[v][k] != col[v][k], "C17: exported data entry i holds the values of the particle inserted at position i");
+  CANARY();
+}
+/*@ harness bounded_export_leaf_rhs plain=1 unwind=5 bounded=particles/leaf<=3,N<=4 props=C17,C15 timeout=600 */
+void bounded_export_leaf_rhs(void)
+{
+  long N, nb; __CPROVER_assume(1 <= N && N <= 4 && 0 <= nb && nb <= 3 && nb <= N);
+  struct ARR_R out[4]; struct ARR_R *outp = out;
+  struct TbfTree__getAllParticlesRhs__lam0 clos = { .cap_rhs = &outp };
+  LeafHeader lh; lh.nbParticles = nb;
+  long pidx[3]; double col[NBDATA][3]; long rcol[NBRHS][3];
+  for(int k = 0; k < 3; ++k) if(k < nb) { __CPROVER_assume(0 <= pidx[k] && pidx[k] < N); for(int j = 0; j < k; ++j) __CPROVER_assume(pidx[j] != pidx[k]); }
+  struct CAT2(std_array_double_p_, NBDATA) dp; struct CAT2(std_array_long_p_, NBRHS) rp;
+  for(int v = 0; v < NBDATA; ++v) dp.d[v] = col[v];
+  for(int v = 0; v < NBRHS; ++v) rp.d[v] = rcol[v];
+  TbfTree__getAllParticlesRhs__lam0__call(&clos, &lh, pidx, dp, rp);
+  for(int k = 0; k < 3; ++k) if(k < nb) for(int v = 0; v < NBRHS; ++v)
+    __CPROVER_assert(out[pidx[k]].d[v] == rcol[v][k], "C17: exported result entry i holds the results of the particle inserted at position i");
+  CANARY();
+}
+
+/*@ harness bounded_export_data tier=never plain=1 unwind=5 bounded=shapes:{2,1}|{2,1}+{1};all-index-permutations;all-values props=C17,C15 timeout=1200 */
 void bounded_export_data(void)
 {
   struct TbfTree t;
@@ -77,7 +113,7 @@ void bounded_export_data(void)
       __CPROVER_assert(out[p].d[v] == g_val[p][v] || (g_val[p][v] != g_val[p][v]), "C17: exported data entry i holds the values of the particle inserted at position i");
   CANARY();
 }
-/*@ harness bounded_export_rhs plain=1 unwind=10 bounded=groups<=2,leaves<=2,particles/leaf<=2,N<=8 props=C17,C15 timeout=1200 */
+/*@ harness bounded_export_rhs tier=never plain=1 unwind=5 bounded=shapes:{2,1}|{2,1}+{1};all-index-permutations;all-values props=C17,C15 timeout=1200 */
 void bounded_export_rhs(void)
 {
   struct TbfTree t;
